@@ -165,6 +165,7 @@ static __attribute__((noinline)) char *expand_in(const char *in, size_t blk, int
     *keep = s;
     mc_dirty_heap(fill);
     mc_dirty_stack(fill, 3 * CONFIG_BUFF);
+    env_new_epoch();
     g_env_on = 1; g_allow_fork = 0; g_exec_emul = 1;          /* commands are emulated (confcommon.h): no process is started */
     g_rand_on = 1; g_rand_value = fill == 0xA5 ? RAND_MAX : 0;  /* the two runs of a case see the two ends of rand()'s range: a one-word %random has one answer */
     char *r = (char *) spifconf_shell_expand((spif_charptr_t) s);
@@ -205,7 +206,7 @@ static void a_case(uint64_t idx, void *ctx)
 }
 
 /* ------------------------------------------------------------------ (B) %put / %get histories (E1) */
-static const char *VOPS[] = { "%put(k v1)", "%put(k v2)", "%put(j v1)", "x%get(k)y", "%get(j)", "%get(k dflt)", "%put(k)", "%get(%get(j))", "%put(a %get(k))", "%put(j '')", "p%get(j)q", "%put(K v3)", "u%get(K)w", "%put(\xe9t v4)", "s%get(\xe9t)t" };      /* K and k are different variables */
+static const char *VOPS[] = { "%put(k v1)", "%put(k v2)", "%put(j v1)", "x%get(k)y", "%get(j)", "%get(k dflt)", "%put(k)", "%get(%get(j))", "%put(a %get(k))", "%put(j '')", "p%get(j)q", "%put(K v3)", "u%get(K)w", "%put(\xe9t v4)", "s%get(\xe9t)t", "[%get(j dflt)]" };      /* the last one: a variable that exists with an empty value is not an unset one */      /* K and k are different variables */
 #define NVOPS ((int) (sizeof VOPS / sizeof VOPS[0]))
 typedef struct { char k[8], j[8], a[8], K[8], E[8]; int hk, hj, ha, hK, hE; int init; } vs_t;      /* E: the variable whose name starts with the byte 0xE9 */      /* h*: the variable exists (its value may be empty) */
 static vs_t *g_vs;
